@@ -3,6 +3,7 @@ import Verif.Model.MptEnc
 import Verif.Model.MptCodec
 import Verif.Model.MptPartial
 import Verif.Model.DeadNodes
+import Verif.Gen.Constants
 import Verif.Model.MptStore
 import Verif.Model.MptCache
 /-! Model driver for the codec suites c14, c15mpt, c17, c01cache (op languages: go/harness/suite_c14.go,
@@ -29,7 +30,11 @@ structure St where
   fc : Cache := {}                              -- c01cache: node cache of the trie opened by the last `cwarm fresh`
   selOrig : Bool := true                        -- c01cache: which of the two tries the c* ops go through
 
-def maxSize : Nat := 10 * 1024 * 1024
+/-- MPTMaxAllowableNodeSize, regenerated from the Go source (go/extract) -/
+def maxSize : Nat := Verif.Gen.Constants.mptMaxAllowableNodeSize
+
+/-- byte strings above 4 kB are printed as `#<length>:<SHA3-256>` (as the harness does) -/
+def hexBig (b : Bytes) : String := if b.length > 4096 then "#" ++ toString b.length ++ ":" ++ hex (sha3 b) else hex b
 
 def keyStr (k : Bytes) : String := if k.isEmpty then "-" else hex k
 
@@ -56,7 +61,7 @@ def fmtKeys (ks : List Bytes) : String :=
 
 def fmtEntries (es : List (Bytes × Bytes)) : String :=
   let es := es.mergeSort (fun a b => bytesLe a.1 b.1)
-  if es.isEmpty then "-" else ",".intercalate (es.map (fun e => hex e.1 ++ "=" ++ hex e.2))
+  if es.isEmpty then "-" else ",".intercalate (es.map (fun e => hex e.1 ++ "=" ++ hexBig e.2))
 
 def pathBytes (p : List Nib) : Bytes := p.map nibChar
 
@@ -114,6 +119,54 @@ def decLine (bs : Bytes) : String :=
     match encodeChecked r with
     | .ok e => "ok " ++ hex e ++ " " ++ (if hasHash r then hex (sha3 (hashBytes r)) else "-")
     | _ => "panic"
+  | .err => "err"
+  | .panic => "panic"
+
+/-! c15mpt large inputs (same construction as go/harness/suite_c15mpt.go: bigNodeInput / bigRecord) -/
+
+def patternBytes (n : Nat) : Bytes := (List.range n).map (fun i => UInt8.ofNat ((i * 7 + 3) % 256))
+
+def strB (s : String) : Bytes := s.toList.map (fun c => UInt8.ofNat c.toNat)
+
+def bigNodeInput (shape : String) (n : Nat) : Bytes :=
+  let tr := le64 1 ++ le64 2
+  let rep := fun (c : UInt8) => List.replicate n c
+  let cat := fun (t : UInt8) (parts : List Bytes) => t :: (tr ++ parts.flatten)
+  match shape with
+  | "leafval" => cat 2 [strB "ab:cd:", patternBytes n]
+  | "leafseps" => cat 2 [strB "ab:cd:", rep 58]
+  | "leafpath" => cat 2 [strB "ab:", rep 97, strB ":v"]
+  | "leafprefix" => cat 2 [rep 98, strB ":cd:v"]
+  | "fullval" => cat 4 [List.replicate 16 58, patternBytes n]
+  | "fullseps" => cat 4 [rep 58]
+  | "fullhex" => cat 4 [rep 97, List.replicate 16 58]
+  | "extkey" => cat 8 [strB "ab:", patternBytes n]
+  | "extpath" => cat 8 [rep 97, strB ":", List.replicate 32 9]
+  | "nosep" => cat 2 [rep 97]
+  | _ => cat 1 [patternBytes n]
+
+def be64 (x : Nat) : Bytes := (List.range 8).map (fun k => UInt8.ofNat ((x >>> (8 * (7 - k))) % 256))
+
+def bigKey (i : Nat) : Bytes :=
+  let h := asciiHexB (be64 ((i * 2654435761) % 18446744073709551616))
+  h ++ h ++ h ++ h
+where asciiHexB (b : Bytes) : Bytes := (hex b).toList.map (fun c => UInt8.ofNat c.toNat)
+
+def bigRecord (shape : String) (n : Nat) : Bytes :=
+  let hdr := fun (k : Nat) => (0x81 : UInt8) :: 0xa5 :: (strB "Nodes" ++ (0xdf : UInt8) :: Verif.DeadNodes.u32 k)
+  let entries := fun (k : Nat) => (List.range k).flatMap (fun i => (0xd9 : UInt8) :: 64 :: (bigKey i ++ [0xc3]))
+  match shape with
+  | "half" => let e := entries n; hdr n ++ e.take (e.length / 2)
+  | "badlast" => let e := entries n; hdr n ++ (e.take (e.length - 1) ++ [1])
+  | "longkey" => hdr 1 ++ (0xdb : UInt8) :: (Verif.DeadNodes.u32 n ++ List.replicate n 97 ++ [0xc3])
+  | "nested" => (0x82 : UInt8) :: 0xa1 :: 120 :: (List.replicate n 0x91 ++ (0xc0 : UInt8) :: 0xa5 :: (strB "Nodes" ++ [0x81, 0xa2, 97, 98, 0xc3]))
+  | _ => hdr n ++ entries n
+
+def decBigLine (bs : Bytes) : String :=
+  match decode bs with
+  | .ok r =>
+    let e := encode r
+    "ok " ++ toString e.length ++ " " ++ hex (sha3 e) ++ " " ++ (if hasHash r then hex (sha3 (hashBytes r)) else "-")
   | .err => "err"
   | .panic => "panic"
 
@@ -220,6 +273,14 @@ def step (s : St) (w : List String) : St × String :=
       let (t', o) := Trie.delete s.v s.t p
       ({ s with t := t', used := pathBytes p :: s.used, touched := none, hist := (s.v, p, []) :: s.hist }, outcome t' o)
     | none => (s, "bad-op")
+  | ["insfill", p, n, fill] =>
+    match parsePath p with
+    | some p =>
+      let f := fill.toNat!
+      let b : Bytes := (List.range n.toNat!).map (fun j => UInt8.ofNat ((f + 31 * j) % 256))
+      let (t', o) := Trie.insert maxSize s.v s.t p b
+      ({ s with t := t', used := pathBytes p :: s.used, touched := none }, outcome t' o)
+    | none => (s, "bad-op")
   | ["insstr", p, b] =>
     match parsePath p, unhex b with
     | some p, some b =>
@@ -237,7 +298,7 @@ def step (s : St) (w : List String) : St × String :=
             | .ok (v, _) => if v.isEmpty then "-" else hex v
             | _ => "err"
           let vn := valueNode b
-          "ok " ++ hex b ++ " str=" ++ str ++ " vn=" ++ hex (encode vn) ++ " h=" ++ hex (sha3 (hashBytes vn)))
+          "ok " ++ hexBig b ++ " str=" ++ str ++ " vn=" ++ hexBig (encode vn) ++ " h=" ++ hex (sha3 (hashBytes vn)))
     | none => (s, "bad-op")
   | ["bulk", n, seed] =>
     let step := fun (acc : Node × Nat) (_ : Nat) =>
@@ -263,6 +324,11 @@ def step (s : St) (w : List String) : St × String :=
     match unhex b with
     | some bs => (s, decLine bs)
     | none => (s, "bad-op")
+  | ["decbig", shape, n] => (s, decBigLine (bigNodeInput shape n.toNat!))
+  | ["dnbig", shape, n] =>
+    (s, match Verif.DeadNodes.pruneKeys (bigRecord shape n.toNat!) with
+        | some _ => "ok left=-"
+        | none => "ok left=1")
   | ["dnenc", l] =>
     match unhexList l with
     | some encs => (s, dnencLine encs)
@@ -317,7 +383,7 @@ def step (s : St) (w : List String) : St × String :=
       ({ s with used := pathBytes p :: s.used,
                 hit := if s.snapped then (lookupMiss (ptOf s s.cur) (pathBytes p)).toList ++ s.hit else s.hit },
         if s.snapped then lresStr (lookupP (ptOf s s.cur) (pathBytes p))
-        else match lookup s.t p with | some b => "ok " ++ hex b | none => "notpresent")
+        else match lookup s.t p with | some b => "ok " ++ hexBig b | none => "notpresent")
     | none => (s, "bad-op")
   | ["iter"] =>
     let pt := ptOf s s.cur
